@@ -395,11 +395,11 @@ theorem denoteId_regroup_input_concat (exprsIn exprsOut : List Expr) (j : Nat) (
     subst hi
     rcases hxy with rfl | ⟨rfl, rfl⟩
     · apply List.forall₂_same.mpr
-      intro a _ z
+      intro a _ z _
       exact map_entries_id _
     · rw [List.forall₂_map_left_iff, List.forall₂_map_right_iff]
       refine (views_regroup pre mid post).imp ?_
-      rintro g u ⟨⟨P, M, Q, rfl, rfl⟩, hg, hu⟩ z
+      rintro g u ⟨⟨P, M, Q, rfl, rfl⟩, hg, hu⟩ z _
       rw [map_entries_id]
       have h1 : shapeOf (grouped pre mid post) = viewShape (P ++ [Dim.flat M] ++ Q) := by
         rw [shapeOf_eq, rootDims_grouped, hg]
@@ -424,5 +424,96 @@ example :
     okOpt (denoteId ([G].set 0 G) [eo]) = okOpt (denoteId ([G].set 0 U) [eo]) :=
   ⟨by decide +kernel, by decide +kernel, by decide +kernel, by decide +kernel,
     denoteId_regroup_input_concat _ _ 0 _ _ _⟩
+
+/-! ### (ii) concatenations: reordering the root dimensions of the input -/
+
+/-- Decidable side condition: every virtual tensor of `e` is well formed (a chosen block of a concatenation fits into
+the concatenation) and its leaf sizes are consistent per name with every virtual output. -/
+def viewsSideB (e : Expr) (exprsOut : List Expr) : Bool :=
+  (views e).all (fun v => Dim.viewOKL v &&
+    (idVout exprsOut).all (fun z => consistentB (Dim.leavesL v ++ Dim.leavesL z.1)))
+
+theorem forall₂_of_map_eq {α β : Type} (f : α → Option β) : ∀ (l1 : List α) (l2 : List β),
+    l1.map f = l2.map some → List.Forall₂ (fun b a => f a = some b) l2 l1 := by
+  intro l1
+  induction l1 with
+  | nil => intro l2 h; cases l2 with
+    | nil => exact List.Forall₂.nil
+    | cons _ _ => simp at h
+  | cons a l1 ih =>
+    intro l2 h
+    cases l2 with
+    | nil => simp at h
+    | cons b l2 =>
+      simp only [List.map_cons, List.cons.injEq] at h
+      exact List.Forall₂.cons h.1 (ih l2 h.2)
+
+/-- **Reordering the root dimensions of the input expression of `id` together with the tensor, concatenations
+included -- partial.**  One input `e` (concatenations allowed anywhere in it), any outputs (e.g. the split
+`a (b + c) d -> a b d, a c d`, or a concatenation on both sides).  `e'` has the root dimensions of `e` permuted by `perm`
+and the tensor is transposed by numpy.  Then the results of `e' -> outs`, with the transposed tensor substituted, are the
+results of `e -> outs`; one fails iff the other does.
+Partial because of the hypothesis `hviews`: the enumeration of the virtual tensors of `e'` is the enumeration of those of
+`e`, each permuted by `perm`.  This holds whenever the root dimensions that contain concatenations keep their relative
+order (einx pairs the blocks of inputs and outputs by position, leftmost concatenation first; if two such dimensions
+are swapped the law is *false*); it is a closed equation for concrete expressions (`rfl` in the example below), but the
+general characterisation is not proved.  The other hypotheses are decidable. -/
+theorem denoteId_permute_input_concat_partial (e e' : Expr) (exprsOut : List Expr) (perm : List Nat)
+    (hperm : isPermOf perm (rootDims e).length = true) (hp : permuteL perm (rootDims e) = some (rootDims e'))
+    (hviews : (views e).map (permuteL perm) = (views e').map some)
+    (hside : viewsSideB e exprsOut = true) :
+    ∃ plan, planInstr [shapeOf e] (.transpose 0 perm) = .ok plan ∧ plan.shape = shapeOf e' ∧
+      (okOpt (denoteId [e'] exprsOut)).map (List.map (substT [⟨plan.shape, plan.cells⟩]))
+        = okOpt (denoteId [e] exprsOut) := by
+  have hlen : (viewShape (rootDims e)).length = (rootDims e).length := by simp [viewShape]
+  obtain ⟨plan, hplan, hshape, _, _⟩ :=
+    transpose_plan_ok [shapeOf e] 0 (viewShape (rootDims e)) perm rfl (by rw [hlen]; exact hperm)
+  have hs : plan.shape = shapeOf e' := by
+    have := viewShape_permute hp
+    rw [hshape] at this
+    exact Option.some.inj this
+  refine ⟨plan, hplan, hs, ?_⟩
+  rw [denoteId_fun_agree_general, denoteId_fun_agree_general]
+  refine denoteIdFunG_congr_in (subst [⟨plan.shape, plan.cells⟩]) [e'] [e] exprsOut ?_
+  simp only [idVin, List.zipIdx_cons, List.zipIdx_nil, List.flatMap_cons, List.flatMap_nil, List.append_nil]
+  rw [List.forall₂_map_left_iff, List.forall₂_map_right_iff]
+  refine (forall₂_and_mem (forall₂_of_map_eq _ _ _ hviews)).imp ?_
+  rintro v' v ⟨hv', hmem', hmem⟩ z hz
+  have hsv : viewShape v = shapeOf e := views_viewShape e v hmem
+  have hsv' : viewShape v' = shapeOf e' := views_viewShape e' v' hmem'
+  have hvlen : v.length = (rootDims e).length := by
+    have := congrArg List.length hsv
+    simpa [viewShape, shapeOf, rootDims] using this
+  simp only [viewsSideB, List.all_eq_true, Bool.and_eq_true] at hside
+  obtain ⟨hok, hcons⟩ := hside v hmem
+  have := idPairEntries_permute_in exprsOut z (by rw [hvlen]; exact hperm) hv' hok (consistentB_spec (hcons z hz))
+    (by rw [hsv]; exact hplan)
+  rw [hsv, hsv'] at this
+  exact this
+
+/-- Non-vacuity: the split `a (b + c) d -> a b d, d c a` with a = 2, b = 1, c = 2, d = 2 (a concatenation in the input,
+two outputs, equal lengths on different axes, a length-1 block); the input permuted by `[2, 0, 1]` to `d a (b + c)` (the
+siblings of the concatenation move, the concatenation itself moves too).  All hypotheses hold (`hviews` by `rfl`), the
+permuted operation yields different cells, and substituting the transposed tensor gives the original results. -/
+example :
+    let a := Expr.axis "a" 2; let b := Expr.axis "b" 1; let c := Expr.axis "c" 2; let d := Expr.axis "d" 2
+    let e := Expr.list [a, .concat [b, c], d]; let e' := Expr.list [d, a, .concat [b, c]]
+    let outs := [Expr.list [a, b, d], Expr.list [d, c, a]]
+    Expr.concatFreeL [e] = false ∧ isPermOf [2, 0, 1] (rootDims e).length = true ∧ viewsSideB e outs = true ∧
+    (match planInstr [shapeOf e] (.transpose 0 [2, 0, 1]), okOpt (denoteId [e'] outs), okOpt (denoteId [e] outs) with
+      | .ok plan, some [t1', t2'], some [t1, t2] =>
+        Tensor.beq (substT [⟨plan.shape, plan.cells⟩] t1') t1 && Tensor.beq (substT [⟨plan.shape, plan.cells⟩] t2') t2 &&
+          !Tensor.beq t2' t2 && t1.shape == [2, 1, 2] && t2.shape == [2, 2, 2] &&
+          Cell.beqL (t2.data.take 4) [.src 0 2, .src 0 8, .src 0 4, .src 0 10]
+      | _, _, _ => false) = true := by
+  decide +kernel
+
+example :
+    let a := Expr.axis "a" 2; let b := Expr.axis "b" 1; let c := Expr.axis "c" 2; let d := Expr.axis "d" 2
+    let e := Expr.list [a, .concat [b, c], d]; let e' := Expr.list [d, a, .concat [b, c]]
+    let outs := [Expr.list [a, b, d], Expr.list [d, c, a]]
+    ∃ plan, planInstr [shapeOf e] (.transpose 0 [2, 0, 1]) = .ok plan ∧ plan.shape = shapeOf e' ∧
+      (okOpt (denoteId [e'] outs)).map (List.map (substT [⟨plan.shape, plan.cells⟩])) = okOpt (denoteId [e] outs) :=
+  denoteId_permute_input_concat_partial _ _ _ [2, 0, 1] (by decide +kernel) rfl rfl (by decide +kernel)
 
 end Einx.C08c
